@@ -97,6 +97,11 @@ pub struct RecCollector {
     /// `clone_span` hands out a fresh id for the new handle (legal per the `Collect` docs); all ids
     /// of one span share its reference count
     pub alias_on_clone: bool,
+    /// hand tracing small ids that OVERLAP between collectors (1, 2, ...) as real collectors do; the log keeps the
+    /// composite id (collector * 1000 + n)
+    pub raw_ids: bool,
+    /// 99 = publish the filter's own hint; 0..=5 = publish that level as max-level hint (changed by the harness mid-history)
+    pub hint_cell: Arc<std::sync::atomic::AtomicU64>,
     aliases: Mutex<HashMap<u64, u64>>, // handle id -> root span id
 }
 
@@ -115,10 +120,31 @@ impl RecCollector {
                 stacks: Mutex::new(HashMap::new()),
                 log_filtering: false,
                 alias_on_clone: false,
+                raw_ids: false,
+                hint_cell: Arc::new(std::sync::atomic::AtomicU64::new(99)),
                 aliases: Mutex::new(HashMap::new()),
             },
             flag,
         )
+    }
+    /// composite id -> the Id given to tracing
+    fn out_id(&self, c: u64) -> span::Id {
+        span::Id::from_u64(if self.raw_ids { c - self.id * 1000 } else { c })
+    }
+    /// an Id received from tracing -> composite id
+    fn in_id(&self, id: &span::Id) -> u64 {
+        if self.raw_ids {
+            id.into_u64() + self.id * 1000
+        } else {
+            id.into_u64()
+        }
+    }
+    pub fn composite(&self, raw: u64) -> u64 {
+        if self.raw_ids {
+            raw + self.id * 1000
+        } else {
+            raw
+        }
     }
     fn root(&self, id: u64) -> u64 {
         self.aliases.lock().unwrap().get(&id).copied().unwrap_or(id)
@@ -162,7 +188,10 @@ impl Collect for RecCollector {
         r
     }
     fn max_level_hint(&self) -> Option<LevelFilter> {
-        self.filter.hint.map(filter_of_rank)
+        match self.hint_cell.load(Ordering::SeqCst) {
+            99 => self.filter.hint.map(filter_of_rank),
+            r => Some(filter_of_rank(r)),
+        }
     }
     fn new_span(&self, a: &span::Attributes<'_>) -> span::Id {
         let id = self.next.fetch_add(1, Ordering::SeqCst);
@@ -171,38 +200,38 @@ impl Collect for RecCollector {
         let parent = if a.is_root() {
             json!("root")
         } else if let Some(p) = a.parent() {
-            json!(p.into_u64())
+            json!(self.in_id(p))
         } else {
             json!("ctx")
         };
         self.push(json!({"col": self.id, "call": "new_span", "id": id, "lvl": rank(m.level()), "tgt": m.target(), "name": m.name(), "parent": parent, "th": vt()}));
-        span::Id::from_u64(id)
+        self.out_id(id)
     }
     fn record(&self, id: &span::Id, _: &span::Record<'_>) {
-        self.push(json!({"col": self.id, "call": "record", "id": id.into_u64(), "th": vt()}));
+        self.push(json!({"col": self.id, "call": "record", "id": self.in_id(&id), "th": vt()}));
     }
     fn record_follows_from(&self, id: &span::Id, f: &span::Id) {
-        self.push(json!({"col": self.id, "call": "follows_from", "id": id.into_u64(), "from": f.into_u64(), "th": vt()}));
+        self.push(json!({"col": self.id, "call": "follows_from", "id": self.in_id(id), "from": self.in_id(f), "th": vt()}));
     }
     fn event(&self, e: &Event<'_>) {
         let m = e.metadata();
         self.push(json!({"col": self.id, "call": "event", "lvl": rank(m.level()), "tgt": m.target(), "name": m.name(), "th": vt()}));
     }
     fn enter(&self, id: &span::Id) {
-        self.stacks.lock().unwrap().entry(vt()).or_default().push(id.into_u64());
-        self.push(json!({"col": self.id, "call": "enter", "id": id.into_u64(), "th": vt()}));
+        self.stacks.lock().unwrap().entry(vt()).or_default().push(self.in_id(&id));
+        self.push(json!({"col": self.id, "call": "enter", "id": self.in_id(&id), "th": vt()}));
     }
     fn exit(&self, id: &span::Id) {
         let mut st = self.stacks.lock().unwrap();
         let s = st.entry(vt()).or_default();
-        if let Some(pos) = s.iter().rposition(|x| *x == id.into_u64()) {
+        if let Some(pos) = s.iter().rposition(|x| *x == self.in_id(&id)) {
             s.remove(pos);
         }
         drop(st);
-        self.push(json!({"col": self.id, "call": "exit", "id": id.into_u64(), "th": vt()}));
+        self.push(json!({"col": self.id, "call": "exit", "id": self.in_id(&id), "th": vt()}));
     }
     fn clone_span(&self, id: &span::Id) -> span::Id {
-        let root = self.root(id.into_u64());
+        let root = self.root(self.in_id(&id));
         let known = {
             let mut sp = self.spans.lock().unwrap();
             match sp.get_mut(&root) {
@@ -218,13 +247,13 @@ impl Collect for RecCollector {
             self.aliases.lock().unwrap().insert(n, root);
             n
         } else {
-            id.into_u64()
+            self.in_id(&id)
         };
-        self.push(json!({"col": self.id, "call": "clone_span", "id": id.into_u64(), "ret": ret, "known": known, "th": vt()}));
-        span::Id::from_u64(ret)
+        self.push(json!({"col": self.id, "call": "clone_span", "id": self.in_id(&id), "ret": ret, "known": known, "th": vt()}));
+        self.out_id(ret)
     }
     fn try_close(&self, id: span::Id) -> bool {
-        let root = self.root(id.into_u64());
+        let root = self.root(self.in_id(&id));
         let (known, closed) = {
             let mut sp = self.spans.lock().unwrap();
             match sp.get_mut(&root) {
@@ -240,14 +269,14 @@ impl Collect for RecCollector {
                 None => (false, false),
             }
         };
-        self.push(json!({"col": self.id, "call": "try_close", "id": id.into_u64(), "known": known, "closed": closed, "th": vt()}));
+        self.push(json!({"col": self.id, "call": "try_close", "id": self.in_id(&id), "known": known, "closed": closed, "th": vt()}));
         closed
     }
     fn current_span(&self) -> span::Current {
         let top = self.stacks.lock().unwrap().get(&vt()).and_then(|s| s.last().copied());
         match top {
             Some(id) => match self.spans.lock().unwrap().get(&self.root(id)) {
-                Some(d) => span::Current::new(span::Id::from_u64(id), d.meta),
+                Some(d) => span::Current::new(self.out_id(id), d.meta),
                 None => span::Current::none(),
             },
             None => span::Current::none(),
